@@ -24,10 +24,11 @@ def make_container(kind, cyl, spt, scratch, tag):
     else:
         return None
     img = mkdisc.blank_surface(nfile, SALT)
-    total = min(n1, 1023)
+    # the catalogue declares the whole surface; counts of 1024 and more use bit 2 of byte 6 (bit 10 of the count), which the
+    # geometry prober reads (get_dfs_sector_count) although the catalogue reader proper keeps 10 bits
     for h in sides:
         off = (h * spt) if kind == "inter" else h * n1
-        s0, s1 = mkdisc.catalog_fragment(b"SIDE%d" % h, 0, 0, total, [])
+        s0, s1 = mkdisc.catalog_fragment(b"SIDE%d" % h, 0, 0, n1 & 1023, [], byte6_extra=4 if n1 & 1024 else 0)
         mkdisc.put(img, off, s0)
         mkdisc.put(img, off + 1, s1)
     path = mkdisc.write(os.path.join(scratch, "%s.%s" % (tag, ext)), bytes(img))
@@ -168,6 +169,55 @@ def run(chk, tier, seed):
         for e in sl:
             chk.case(("slot", e["status"]))
         events += sl
+        # MmbDir.tla: every neighbourhood of status bytes.  One image whose directory is a de Bruijn sequence over the model's status
+        # bytes holds every case (a window of N consecutive slots) at some position, across directory-sector boundaries; every
+        # slot has a formatted surface stored behind it, so a slot wrongly taken as present shows it
+        rm = common.tlc("MmbDir", "MmbDir.cfg")
+        chk.add_tlc("MmbDir.cfg", rm)
+        if rm.violated:
+            chk.violation("model:" + rm.violated, "MmbDir.tla: %s\n%s" % (rm.violated, "\n".join(rm.cex[:20])), dict(spec="MmbDir.tla"))
+        windows = sorted({tuple(c["dir"]) for c in rm.cases})
+        alphabet = sorted({b for w in windows for b in w})
+        nwin = len(windows[0])
+        def de_bruijn(kk, n):
+            a = [0] * kk * n
+            seq = []
+            def db(t, p_):
+                if t > n:
+                    if n % p_ == 0:
+                        seq.extend(a[1:p_ + 1])
+                else:
+                    a[t] = a[t - p_]
+                    db(t + 1, p_)
+                    for j in range(a[t - p_] + 1, kk):
+                        a[t] = j
+                        db(t + 1, t)
+            db(1, 1)
+            return seq
+        seq = [alphabet[x] for x in de_bruijn(len(alphabet), nwin)]
+        seq = [0x0F] * 13 + seq + seq[:nwin - 1]      # 13 leading slots so that windows straddle the first directory sector's end too
+        covered = {tuple(seq[i:i + nwin]) for i in range(len(seq) - nwin + 1)}
+        if not set(windows) <= covered:
+            raise common.MachineryError("the directory sequence does not cover every window of MmbDir.tla")
+        db_path = os.path.join(scratch, "dirseq.mmb")
+        mkdisc.write(db_path, mkdisc.container_mmb({i: bytes(mkdisc.surface_dfs(800, 3, title=b"DB%d" % i)) for i in range(len(seq))},
+                                                   status={i: st for i, st in enumerate(seq)}))
+
+        def do_dslot(i):
+            o = common.run([dfs, "--drive-first", "--file", db_path, "cat", str(i)], timeout=60)
+            o2 = common.run([dfs, "--drive-first", "--file", db_path, "dump-sector", str(i), "0", "0"], timeout=60)
+            if o.rc == 0 and o.out.startswith(b"DB%d " % i) and o2.rc == 0:
+                obs = "present"
+            elif o.rc != 0 and b"formatted" in o.err and o.ok_alphabet() and o2.rc != 0 and o2.ok_alphabet():
+                obs = "unformatted"
+            else:
+                obs = "other:cat rc=%s dump-sector rc=%s:%s" % (o.rc, o2.rc, o.err[-80:].decode("latin1"))
+            return dict(e="slot", status=seq[i], obs=obs, slot=i, before=seq[max(0, i - nwin + 1):i])
+        dsl = common.pmap(do_dslot, list(range(len(seq))))
+        for e in dsl:
+            chk.case(("dirslot", tuple(e["before"]), e["status"], e["slot"] % 16))
+        events += dsl
+        chk.extra["mmb_directory_windows"] = len(windows)
         trace = os.path.join(scratch, "trace.ndjson")
         with open(trace, "w") as f:
             for e in events:
@@ -184,7 +234,9 @@ def run(chk, tier, seed):
                               "dump-sector side %d track %d sector %d of a %s %dx%d container showed file sector %d" %
                               (e["side"], e["t"], e["s"], e["kind"], e["cyl"], e["spt"], e["obs"]), dict(event=e))
             else:
-                chk.violation("mmb-status", "MMB slot with status byte 0x%02X observed as %s" % (e["status"], e["obs"]), dict(event=e))
+                chk.violation("mmb-status" + (":after-%s" % "-".join("%02X" % b for b in e["before"][-1:]) if e.get("before") else ""),
+                              "MMB slot %s with status byte 0x%02X (after slots with %r) observed as %s" % (e.get("slot", e["status"]), e["status"], e.get("before"), e["obs"]),
+                              dict(event=e))
 
 
 def replay(chk, path):
